@@ -77,3 +77,7 @@ def run(ctx):
     ctx.ob('R28.4', cp.n, 'a compressed result is accepted only under len / compressed.len() <= MAX_PROPERTIES_COMPRESSION_RATIO', any(re.match(r'^(Le\(Div\(Vec::len\(cbor\),Vec::len\(.*\)\),MAX_PROPERTIES_COMPRESSION_RATIO\)==True|Gt\(Div\(Vec::len\(cbor\),Vec::len\(.*\)\),MAX_PROPERTIES_COMPRESSION_RATIO\)==False)$', g) for g in ratio) and any(g.startswith('Gt(Div(') and g.endswith('==True') or g.startswith('Le(Div(') and g.endswith('==False') for g in ratio), f'{sorted(set(ratio))}', where(cp, cp.line))
   cs = {k: (F.consts.get('ord::inscriptions::inscription::' + k) or {}).get('v') for k in ('MAX_COMPRESSED_PROPERTIES_SIZE', 'MAX_PROPERTIES_COMPRESSION_RATIO')}
   ctx.ob('R28.4', 'ord::inscriptions::inscription', 'documented limits: 4 000 000 bytes decompressed, ratio 30:1', cs == {'MAX_COMPRESSED_PROPERTIES_SIZE': 4_000_000, 'MAX_PROPERTIES_COMPRESSION_RATIO': 30}, f'{cs}', nontrivial=False)
+
+
+# sensitivity pack (thorough tier): each seeded edit must be reported by the named rule instance
+MUTANTS = [{'name': 'size-guard-dropped', 'file': 'src/inscriptions/inscription.rs', 'old': '        if value.len() + n > max {\n          return None;\n        }\n', 'new': '', 'expect': ('R28.1', 'properties_cbor', 'dominated by the size guard')}]
